@@ -64,6 +64,36 @@ impl LazyElementVar {
     }
 }
 
+// Verification hook (guard: --cfg decaf377_verif). Additive only: read-only view of the lazy
+// state machine; never forces an evaluation and never emits constraints.
+#[cfg(decaf377_verif)]
+impl LazyElementVar {
+    /// 0 = Encoding only, 1 = Element only, 2 = EncodingAndElement
+    pub fn verif_state(&self) -> u8 {
+        match &*self.inner.borrow() {
+            Inner::Encoding(_) => 0,
+            Inner::Element(_) => 1,
+            Inner::EncodingAndElement { .. } => 2,
+        }
+    }
+
+    pub fn verif_peek_encoding(&self) -> Option<FqVar> {
+        match &*self.inner.borrow() {
+            Inner::Encoding(e) => Some(e.clone()),
+            Inner::Element(_) => None,
+            Inner::EncodingAndElement { encoding, .. } => Some(encoding.clone()),
+        }
+    }
+
+    pub fn verif_peek_element(&self) -> Option<ElementVar> {
+        match &*self.inner.borrow() {
+            Inner::Encoding(_) => None,
+            Inner::Element(e) => Some(e.clone()),
+            Inner::EncodingAndElement { element, .. } => Some(element.clone()),
+        }
+    }
+}
+
 #[cfg(test)]
 mod tests {
     use crate::{Bls12_377, Element, Fq};
